@@ -1345,9 +1345,7 @@ class Corr:
         return self * y
 
     def __rtruediv__(self, y):
-        if isinstance(y, CObs):
-            return self ** (-1) * y
-        return (self / y) ** (-1)
+        return self ** (-1) * y
 
     @property
     def real(self):
